@@ -4,6 +4,7 @@ CONSTANTS
   Missing = "nope"
   MaxHist = 0
   Hot <- NoHot
+INVARIANT DbsWellFormed
 INVARIANT Once
 INVARIANT Consistent
 INVARIANT Resolved
